@@ -1046,7 +1046,7 @@ def imported_name_resolve(run):
     core.explore(lambda: None, lambda p, out: go(p))
 
 
-@harness(['C07', 'C12'], 'supp.project.Project.list_packages', bounded='directory trees: 2 source roots (the later one holding a plain directory or a package of the same name) x every subset of 7 entry kinds (module, package, plain directory, '
+@harness(['C07', 'C12'], 'supp.project.Project.list_packages', bounded='directory trees: 2 source roots (the later one holding a plain directory or a package of the same name) x every subset of 8 entry kinds (module, package, plain directory, double-underscore modules, '
          'compiled-suffix file, __init__.py, non-python file, files / packages whose name is not an identifier) in the listed directory')
 def list_packages_bounded(run):
     """BOUNDED stand-in (nested loops over os.listdir results with suffix stripping): the children listed for a package root are exactly
@@ -1067,6 +1067,7 @@ def list_packages_bounded(run):
                  'ext': lambda d: open(os.path.join(d, 'ex' + importlib.machinery.EXTENSION_SUFFIXES[0]), 'w').close(),
                  'init': lambda d: open(os.path.join(d, '__init__.py'), 'w').close(),
                  'other': lambda d: open(os.path.join(d, 'notes.txt'), 'w').close(),
+                 'dunder': lambda d: (open(os.path.join(d, '__main__.py'), 'w').close(), open(os.path.join(d, '__version__.py'), 'w').close()),
                  'unnameable': lambda d: (open(os.path.join(d, 'data-2024.py'), 'w').close(), os.makedirs(os.path.join(d, 'not.a-name')),
                                           open(os.path.join(d, 'not.a-name', '__init__.py'), 'w').close())}
         expect = {'mod': 'ma', 'pkg': 'pb', 'ext': 'ex'}
@@ -1247,6 +1248,30 @@ def resolution_small_trees(run):
                              (os.path.join(base, 'outer', 'inner', 'pkg', '..'), True)):
                 isr = getattr(pr, 'is_root', lambda d__: '<no is_root>')(d_)
                 prove('is_root:%s' % os.path.relpath(d_, base), isr == want, clause='is_root == the directory is one of sources + sys.path [%r]' % (isr,), path=path)
+            # a plain module has no submodules, whatever lies next to it or under another root
+            base = os.path.join(top, 'plainparent')
+            os.makedirs(os.path.join(base, 'pkgp'))
+            for rel in ('amod.py', 'bmod.py', 'path.py', os.path.join('pkgp', '__init__.py'), os.path.join('pkgp', 'mod.py'), 'cmod.py'):
+                open(os.path.join(base, rel), 'w').close()
+            for nm in ('amod.bmod', 'pkgp.mod.cmod', 'amod.amod', 'pkgp.mod', 'os.path'):
+                try:
+                    spec = importlib.util.find_spec(nm) if nm == 'os.path' else None
+                    if nm != 'os.path':
+                        parent = importlib.machinery.PathFinder.find_spec(nm.rpartition('.')[0].split('.')[0], [base])
+                        for comp in nm.split('.')[1:]:
+                            locs = parent.submodule_search_locations if parent is not None else None
+                            parent = importlib.machinery.PathFinder.find_spec(comp, list(locs)) if locs else None
+                        spec = parent
+                    want = spec.origin if spec else None
+                except Exception:
+                    want = None
+                try:
+                    mod = Project([base]).get_module(nm)
+                    got = getattr(mod, 'filename', None) or getattr(getattr(mod, 'module', None), '__file__', 'runtime')
+                except ImportError:
+                    got = None
+                ok = (got == want) if nm != 'os.path' else (got is not None and not str(got).startswith(base))      # the loaded posixpath, never base/path.py
+                prove('below-a-plain-module:%s' % nm, ok, clause='get_module(%r): %r, importlib: %r' % (nm, got, want), path=path)
             # names with an empty component are no module names
             base = os.path.join(top, 'emptycomp')
             os.makedirs(os.path.join(base, 'p'))
